@@ -1,6 +1,7 @@
 """Compact AST node + helpers (built from clang -ast-dump=json)."""
 
-REPO = '/repo'
+import os
+REPO = os.environ.get('M4LINT_REPO', '/repo')
 
 
 class Node(object):
